@@ -26,12 +26,16 @@ import (
 type Spec struct {
 	Chain  string
 	Params bool
+	// Focus narrows the alphabet to batches only (no bridge calls, no cancels) and offers a second parameter
+	// change that shortens the batch timeout, so that histories with two pending batches whose timeouts are
+	// not monotonic in their nonces come within the depth bound
+	Focus bool
 	w      *world.World
 	os     map[string][]scen.Oracle
 	fx     scen.Token
 }
 
-func (s *Spec) Name() string { return fmt.Sprintf("c06/%s/params=%v", s.Chain, s.Params) }
+func (s *Spec) Name() string { return fmt.Sprintf("c06/%s/params=%v/focus=%v", s.Chain, s.Params, s.Focus) }
 
 type Event struct {
 	Nonce  uint64
@@ -207,6 +211,9 @@ func (s *Spec) Ops(st *explore.State) []explore.Op {
 			}
 		}))
 		for _, tx := range k.GetUnbatchedTransactions(ctx) {
+			if s.Focus {
+				break
+			}
 			id := tx.Id
 			ops = append(ops, s.wrap(fmt.Sprintf("Cancel(%d)", id), nil, func(c *explore.State) {
 				r := s.w.Deliver(c.Ctx, &cctypes.MsgCancelSendToExternal{ChainName: ch, TransactionId: id, Sender: u1.Bech()})
@@ -217,7 +224,19 @@ func (s *Spec) Ops(st *explore.State) []explore.Op {
 			}))
 		}
 	}
-	if scen.LastBridgeCallID(s.w, ctx, ch) < 2 {
+	if s.Focus {
+		ops = append(ops, s.wrap("Params(zeroBatchTimeout)", nil, func(c *explore.State) {
+			p := k.GetParams(c.Ctx)
+			if p.ExternalBatchTimeout == 60000 {
+				c.Outcome = "n/a"
+				return
+			}
+			p.ExternalBatchTimeout = 60000 // (the minimum the parameter check admits: 0 external blocks) batches built from now on time out at the projected height itself
+			r := s.w.Deliver(c.Ctx, &cctypes.MsgUpdateParams{ChainName: ch, Authority: world.GovAuthority(), Params: p})
+			ok(c, r.OK())
+		}))
+	}
+	if scen.LastBridgeCallID(s.w, ctx, ch) < 2 && !s.Focus {
 		ops = append(ops, s.wrap("BridgeCallOut", nil, func(c *explore.State) {
 			r := s.w.Deliver(c.Ctx, &cctypes.MsgBridgeCall{ChainName: ch, Sender: u1.Bech(), Refund: u1.Bech(), Coins: sdk.NewCoins(sdk.NewInt64Coin("FX", 2)), To: scen.ExtAddr(ch, "callee"), Data: "01", Value: sdkmath.ZeroInt()})
 			ok(c, r.OK())
@@ -230,7 +249,7 @@ func (s *Spec) Ops(st *explore.State) []explore.Op {
 	}
 	// (i) nothing can be built on a chain where no external height has been observed
 	for other := range s.os {
-		if other == ch {
+		if other == ch || s.Focus {
 			continue
 		}
 		other := other
@@ -379,9 +398,13 @@ func init() {
 				return []registry.Job{
 					{Name: "eth", Spec: &Spec{Chain: "eth", Params: true}, Depth: 10, ShardDepth: 2},
 					{Name: "tron", Spec: &Spec{Chain: "tron"}, Depth: 9, ShardDepth: 2},
+					{Name: "eth-batches-nonmonotonic-timeouts", Spec: &Spec{Chain: "eth", Focus: true}, Depth: 12, ShardDepth: 2},
 				}
 			}
-			return []registry.Job{{Name: "eth", Spec: &Spec{Chain: "eth", Params: true}, Depth: 8, ShardDepth: 2}}
+			return []registry.Job{
+				{Name: "eth", Spec: &Spec{Chain: "eth", Params: true}, Depth: 8, ShardDepth: 2},
+				{Name: "eth-batches-nonmonotonic-timeouts", Spec: &Spec{Chain: "eth", Focus: true}, Depth: 10, ShardDepth: 2},
+			}
 		},
 	})
 }
